@@ -485,12 +485,14 @@ def translate_in(wd):
                 if ptrs[by_name[r[k]]]["type"] != "int":
                     raise Refuse("MJMODEL_REFERENCES: %s is not an int array (the X loop reads `int`)" % r[k])
     if "--print-special" in sys.argv:
-        sys.stdout.write(special + "\n")
+        import textwrap
+        sys.stdout.write("\n".join(textwrap.wrap(" ".join(special.split()), 150, break_long_words=False, break_on_hyphens=False)) + "\n")
         sys.exit(0)
     if not os.path.exists(SPECIAL_TEMPLATE):
         raise Refuse("missing %s" % SPECIAL_TEMPLATE)
-    expect_exact("mj_validateReferences: special logic (hand-modelled in Model/Mjb.lean `Special.run`)", special,
-                 open(SPECIAL_TEMPLATE).read().strip())
+    # (the template file is wrapped for readability: compared modulo whitespace, like everything else here)
+    expect_exact("mj_validateReferences: special logic (hand-modelled in Model/Mjb.lean `Special.run`)", " ".join(special.split()),
+                 " ".join(open(SPECIAL_TEMPLATE).read().split()))
 
     # --- sensorSize / numObjects / nPOS / nVEL
     sb, sh = body(r"static\s+int\s+sensorSize\s*\(mjtSensor sensor_type, int sensor_dim\)\s*\{", "sensorSize")
